@@ -28,13 +28,13 @@ import (
 
 type nullConn struct{}
 
-func (nullConn) WriteTo(b []byte, addr net.Addr) (int, error)   { return len(b), nil }
-func (nullConn) ReadFrom(b []byte) (int, net.Addr, error)       { return 0, nil, io.EOF }
-func (nullConn) Close() error                                   { return nil }
-func (nullConn) LocalAddr() net.Addr                            { return nil }
-func (nullConn) SetDeadline(t time.Time) error                  { return nil }
-func (nullConn) SetReadDeadline(t time.Time) error              { return nil }
-func (nullConn) SetWriteDeadline(t time.Time) error             { return nil }
+func (nullConn) WriteTo(b []byte, addr net.Addr) (int, error) { return len(b), nil }
+func (nullConn) ReadFrom(b []byte) (int, net.Addr, error)     { return 0, nil, io.EOF }
+func (nullConn) Close() error                                 { return nil }
+func (nullConn) LocalAddr() net.Addr                          { return nil }
+func (nullConn) SetDeadline(t time.Time) error                { return nil }
+func (nullConn) SetReadDeadline(t time.Time) error            { return nil }
+func (nullConn) SetWriteDeadline(t time.Time) error           { return nil }
 
 type nicCfg struct {
 	name string
